@@ -711,6 +711,112 @@ def nm_single(ctx, nmodel, dist, stats, samples, mism):
                          dict(impl=repr(ev), bk=frs(bk), rest=nrest)))
 
 
+def nm_restart(ctx, stats):
+    """real threads, DETERMINISTIC schedules (the service's queue is replaced by one that signals when the service thread
+    is blocked in get(); the handler can be held on an event): the notification service is stopped without finality
+    (stop(forever=False), what CloudSync.stop(forever=False) does to it) and started again, one to three times; every
+    notification raised before, while stopped and after the restarts must be delivered exactly once, in order, and the
+    restarted service must stay up until somebody stops it.
+      kind "idle": stop() arrives while the service thread waits in get() for the next item (the normal case);
+      kind "busy": stop(wait=False) arrives while the handler is still running, then the handler returns, then wait()."""
+    import queue as _queue
+    from cloudsync.notification import Notification, NotificationType, SourceEnum
+    NM = make_nm_class()
+    rng = ctx.sub_rng("nmrestart")
+    stats.setdefault("nmrestart_cases", 0)
+    stats.setdefault("nmrestart_notifications", 0)
+    stats.setdefault("nmrestart_inconclusive", 0)
+
+    class WatchQueue(_queue.Queue):
+        def __init__(self):
+            super().__init__()
+            self.in_get = threading.Event()
+
+        def get(self, block=True, timeout=None):
+            if self.empty():
+                self.in_get.set()
+            try:
+                return super().get(block, timeout)
+            finally:
+                self.in_get.clear()
+
+    plans = [("idle", 1, 0), ("idle", 2, 1), ("idle", 3, 2), ("busy", 1, 0), ("busy", 2, 1)]
+    if not ctx.quick:
+        plans = plans + [(k, c, w) for k in ("idle", "busy") for c in (1, 2, 3) for w in (0, 1, 2)]
+    for (kind, cycles, while_stopped) in plans:
+        delivered = []
+        cond = threading.Condition()
+        hold = threading.Event()
+        hold.set()
+        in_handler = threading.Event()
+
+        def handler(e):
+            in_handler.set()
+            hold.wait(30)
+            in_handler.clear()
+            with cond:
+                delivered.append(e.tag)
+                cond.notify_all()
+        nm = NM(handler)
+        nm.virtual = False
+        nm.events = []
+        wq = WatchQueue()
+        nm._NotificationManager__queue = wq
+        raised = []
+
+        def raise_n(k):
+            for _ in range(k):
+                e = Notification(SourceEnum.SYNC, NotificationType.TEMPORARY_ERROR, None)
+                e.tag = len(raised)
+                raised.append(e.tag)
+                nm.notify(e)
+
+        def wait_all(timeout=20.0):
+            with cond:
+                return cond.wait_for(lambda: len(delivered) >= len(raised), timeout)
+        case = dict(kind="nm_restart", schedule=kind, cycles=cycles, raised_while_stopped=while_stopped,
+                    law="fifo_exactly_once_in_order across a non-final stop and restart")
+        nm.start(sleep=0.0001)
+        raise_n(2)
+        ok = wait_all()
+        inconclusive = False
+        for c in range(cycles):
+            if not ok:
+                break
+            if kind == "idle":
+                if not wq.in_get.wait(20):
+                    inconclusive = True
+                    break
+                nm.stop(forever=False)
+            else:
+                hold.clear()
+                raise_n(1)
+                if not in_handler.wait(20):
+                    inconclusive = True
+                    hold.set()
+                    break
+                nm.stop(forever=False, wait=False)      # the service thread is inside the handler, not in get()
+                hold.set()
+                nm.wait(20)
+            raise_n(while_stopped)
+            nm.start(sleep=0.0001)
+            raise_n(2)
+            ok = wait_all()
+        up = bool(nm.started)
+        hold.set()
+        nm.stop(forever=True)
+        stats["nmrestart_cases"] += 1
+        stats["nmrestart_notifications"] += len(raised)
+        if inconclusive:
+            stats["nmrestart_inconclusive"] += 1
+            continue
+        if not ok or delivered != raised:
+            ctx.violation("notifications lost or reordered across stop(forever=False) + start() [%s]: raised %r delivered %r "
+                          "(service still up afterwards: %s)" % (kind, raised, delivered, up), case)
+        elif not up:
+            ctx.violation("the notification service stopped by itself after a restart although nobody called stop() [%s]" % kind, case)
+
+
 def nm_threads(ctx, stats):
     """real threads: producers raise notifications while the service runs; predicates only (prefix / exact)"""
     from cloudsync.notification import Notification, NotificationType, SourceEnum
@@ -825,6 +931,7 @@ def run(ctx):
         stream_schedules(ctx, model, variant, dist, stats, samples, mism)
         nm_single(ctx, nmodel, dist, stats, samples, mism)
         nm_threads(ctx, stats)
+        nm_restart(ctx, stats)
         stats["model_calls"] = model.calls + nmodel.calls
         model.close()
         nmodel.close()
